@@ -191,7 +191,18 @@ class IntEnc:
             x, y = self.expr(a[0]), self.expr(a[1])
             s = lin_add(x, y)
             if self.bounds(s)[1] >= B:
-                raise NotEncodable('plain addition may wrap')
+                # a plain 64-bit addition that may wrap: w + B k = x + y with k in {0,1} (exact; the lost carry is a carry variable)
+                key = ('wadd',) + tuple(a)
+                if key not in self.pairs:
+                    k = len(self.pairs)
+                    if self.bounds(s)[1] >= 2 * B or self.bounds(s)[0] < 0:
+                        raise NotEncodable('plain addition out of range')
+                    w = self.var('wadd%d_w' % k, 0, B - 1, i)
+                    c = self.var('wadd%d_c' % k, 0, 1)
+                    self.carry.add(c)
+                    self.addeq(lin_add({w: 1, c: B}, s, -1), 'wadd%d' % k, [w, c], 'wadd')
+                    self.pairs[key] = (w, c)
+                return {self.pairs[key][0]: 1}
             return s
         raise NotEncodable('op %s' % op)
 
@@ -241,6 +252,12 @@ class IntEnc:
         for c, val in self.case.items():
             if ev.ev(c) != val:
                 return None  # other case
+        # lost carries of plain additions have no node of their own: derived from their defining equation
+        for e in self.eqs:
+            if e['kind'] == 'wadd':
+                w, c = e['defines']
+                rest = sum(cf * (asg[v] if v != 1 else 1) for v, cf in e['coefs'].items() if v not in (w, c))
+                asg[c] = (-rest - asg[w]) // B if (-rest - asg[w]) % B == 0 else -1
         for v, (lo, hi) in self.rng.items():
             if v not in asg:
                 raise AssertionError('encoding variable %s has no concrete counterpart' % v)
